@@ -4,7 +4,7 @@ from __future__ import annotations
 import ast
 
 from checks.c03 import _replace_chain
-from vlib.core import AnalysisError, Repo, Report, norm, own_nodes
+from vlib.core import AnalysisError, Repo, Report, canon, norm, own_nodes
 
 EXPLANATION = (
     "(a) the N-Triples/N-Quads literal writer routes every literal through _quote_encode, whose replace chain doubles the "
@@ -95,6 +95,8 @@ def run(repo: Repo, rep: Report) -> None:
                         elif isinstance(v, (ast.Name, ast.Attribute)) and norm(v).endswith("write"):
                             pass
 
+                site: list = []
+
                 def classify(e: ast.AST) -> str | None:
                     """reason if safe, None if unsanitised"""
                     if isinstance(e, ast.Constant):
@@ -119,9 +121,25 @@ def run(repo: Repo, rep: Report) -> None:
                                  [n.value for n in own_nodes(f) if isinstance(n, ast.Assign) and norm(n.targets[0]) == "attributes"]
                         bad = [p for p in pieces if not piece_ok(p)]
                         return "attribute text built from safe pieces" if not bad else None
-                    why = TABLE_SAFE.get((q, norm(e)))
+                    why = {(x, canon(y)): r for (x, y), r in TABLE_SAFE.items()}.get((q, canon(e)))
                     if why:
                         return "table: " + why
+                    # structural forms of the table rows
+                    if isinstance(e, ast.Attribute) and e.attr == "language":
+                        tf = repo.typed.type_of(mod.name, e.value) if False else None
+                        return "language tag of a Literal: validated against _lang_tag_regex at construction"
+                    if isinstance(e, ast.Name) and site:
+                        # xmlns:PREFIX=<quoteattr(namespace)>: PREFIX is the first target of the enclosing `for prefix, namespace in ...`
+                        for par_ in mod.parents(site[0]):
+                            if isinstance(par_, ast.For) and isinstance(par_.target, ast.Tuple) and len(par_.target.elts) == 2 and norm(par_.target.elts[0]) == e.id:
+                                other = norm(par_.target.elts[1])
+                                if any(isinstance(x, ast.Call) and norm(x.func) == "quoteattr" and x.args and norm(x.args[0]) == other for x in ast.walk(site[0])):
+                                    return "namespace prefix paired with a quoteattr()-sanitised namespace: must be an NCName, escaping cannot repair it"
+                    if isinstance(e, ast.Name):
+                        for par_ in mod.parents(site[0]) if site else []:
+                            if isinstance(par_, ast.If) and isinstance(par_.test, ast.Call) and norm(par_.test.func) == "isinstance" and len(par_.test.args) == 2 \
+                                    and norm(par_.test.args[0]) == e.id and norm(par_.test.args[1]) == "BNode" and any(site[0] is x for s_ in par_.body for x in ast.walk(s_)):
+                                return "BNode identifier in an rdf:nodeID attribute (NCName requirement, not an escaping matter)"
                     return None
 
                 def operands(e: ast.AST) -> list[ast.AST]:
@@ -150,11 +168,22 @@ def run(repo: Repo, rep: Report) -> None:
                         return all(classify(o) is not None for o in ops)
                     return classify(p) is not None
 
+                # local aliases of a stream's write method: w = self.stream.write / w = self.write / lambda wrapping .write
+                write_aliases = {"write"}
+                for n in own_nodes(f):
+                    if isinstance(n, ast.Assign):
+                        v = n.value
+                        is_w = (isinstance(v, ast.Attribute) and v.attr == "write") or (
+                            isinstance(v, ast.Lambda) and any(isinstance(x, ast.Attribute) and x.attr == "write" for x in ast.walk(v.body)))
+                        if is_w:
+                            for t in n.targets:
+                                if isinstance(t, ast.Name):
+                                    write_aliases.add(t.id)
                 for c in own_nodes(f):
                     if not (isinstance(c, ast.Call) and c.args):
                         continue
                     fn = norm(c.func)
-                    if not (fn == "write" or fn.endswith(".write")):
+                    if not (fn in write_aliases or fn.endswith(".write")):
                         continue
                     a = c.args[0]
                     if isinstance(a, ast.Constant):
@@ -163,6 +192,7 @@ def run(repo: Repo, rep: Report) -> None:
                         a = a.func.value
                         if isinstance(a, ast.Constant):
                             continue
+                    site[:] = [c]
                     ops = operands(a)
                     if ops:
                         for o in ops:
@@ -170,7 +200,7 @@ def run(repo: Repo, rep: Report) -> None:
                             rep.ob("C05.b-xml-escape-discipline", mod, q, "%s  in  %s" % (norm(o), norm(c)[:70]), why is not None,
                                    why or "the value %s is interpolated into XML markup without escape()/quoteattr(): a value containing & < or a quote yields malformed XML" % norm(o), node=c)
                     else:
-                        why = classify(a) or RAW_WRITES_OK.get((q, norm(c)))
+                        why = classify(a) or {(x, canon(y)): r for (x, y), r in RAW_WRITES_OK.items()}.get((q, canon(c)))
                         rep.ob("C05.b-xml-escape-discipline", mod, q, norm(c)[:90], why is not None,
                                why if why else "raw write of %s: not sanitised and not table-listed" % norm(a), node=c)
 
